@@ -25,7 +25,7 @@ def prepare():
 
 def budgets(tier):
     if tier == 'quick':
-        return dict(shards=16, examples=60)
+        return dict(shards=16, examples=150)
     return dict(shards=16, examples=1500, deadline_s=3000)
 
 
